@@ -55,9 +55,16 @@ func c05forms() []c05form {
 		{"[null,string]", `["null","string"]`, []any{u(0, nil), u(1, "str"), u(1, "")}},
 	}
 	// the same base types carrying logical types (the annotation does not change what fits the destination)
+	// (stored values whose instant does not fit int64 nanoseconds are left out: what they decode to is outside C19)
+	var stamps []any
+	for _, v := range longs {
+		if x := v.(int64); x <= math.MaxInt64/1000000 && x >= -(math.MaxInt64 / 1000000) {
+			stamps = append(stamps, v)
+		}
+	}
 	forms = append(forms,
-		c05form{"long/timestamp-micros", `{"type":"long","logicalType":"timestamp-micros"}`, longs},
-		c05form{"long/timestamp-millis", `{"type":"long","logicalType":"timestamp-millis"}`, longs},
+		c05form{"long/timestamp-micros", `{"type":"long","logicalType":"timestamp-micros"}`, stamps},
+		c05form{"long/timestamp-millis", `{"type":"long","logicalType":"timestamp-millis"}`, stamps},
 		c05form{"int/date", `{"type":"int","logicalType":"date"}`, ints},
 		c05form{"long/unknown-logical", `{"type":"long","logicalType":"x-vendor"}`, longs},
 		c05form{"[null,long/timestamp-micros]", `["null",{"type":"long","logicalType":"timestamp-micros"}]`, []any{u(0, nil), u(1, int64(7)), u(1, int64(1)<<40)}},
